@@ -323,6 +323,12 @@ func (b *exampleBuilder) buildExampleForArrayNode(node *internalSchema.ArrayNode
 		}
 
 		if ex == nil {
+			if !mayStop && b.absorbers > 0 {
+				// An array with fewer items than its "minItems" rule asks for is
+				// not valid: there is no example of this array, the place which
+				// may do without it leaves it out.
+				return nil, nil
+			}
 			// Omitting an element in the middle would shift the following ones to
 			// positions described by other example elements: end the array here.
 			break
